@@ -445,14 +445,67 @@ pub fn walk_programs_cmd(args: &[&str]) -> String {
     match Glob::new(&expr) {
         Err(_) => "globerr".into(),
         Ok(glob) => {
-            let (root, pivot, progs) = glob.verif_walk_programs(PathBuf::from(base));
+            let (root, pivot, progs) = glob.verif_walk_programs(PathBuf::from(&base));
+            // "the glob replaces the base directory, as with path joining": the walk starts at the base joined
+            // with the prefix that `partition` (public API) reports
+            let expected = Path::new(&base).join(glob.clone().partition().0);
             format!(
-                "root={} pivot={} progs={}",
+                "root={} pivot={} progs={} joined={}",
                 hexp(&root),
                 pivot,
-                if progs.is_empty() { "-".to_string() } else { progs.iter().map(|p| hex(p)).collect::<Vec<_>>().join(";") }
+                if progs.is_empty() { "-".to_string() } else { progs.iter().map(|p| hex(p)).collect::<Vec<_>>().join(";") },
+                if expected == root { "same".to_string() } else { format!("DIFF<{}>", hexp(&expected)) }
             )
         },
+    }
+}
+
+/// `WR <expr> <base> <max>`: walks the REAL file system with a rooted glob (maximum depth `max`) and compares with
+/// the path walk of `/` to the same depth filtered by `is_match` on the whole path
+pub fn walk_real_cmd(args: &[&str]) -> String {
+    if args.len() < 3 {
+        return "bad-args".into();
+    }
+    let expr = unhex(args[0]);
+    let base = unhex(args[1]);
+    let max: usize = args[2].parse().unwrap_or(1);
+    let glob = match Glob::new(&expr) {
+        Ok(g) => g,
+        Err(_) => return "globerr".into(),
+    };
+    // rooted globs count the root directory as a component and report one more (a listed finding), so the glob walk
+    // runs with max + 2 and must lie between the reference walks to max and to max + 2
+    let walk_ref = |m: usize| -> Vec<String> {
+        let mut v: Vec<String> = Path::new("/")
+            .walk_with_behavior(DepthBehavior::bounded(None, m).unwrap())
+            .filter_map(|e| e.ok())
+            .map(|e| e.path().to_string_lossy().to_string())
+            .filter(|p| wax::Program::is_match(&glob, p.as_str()))
+            .collect();
+        v.sort();
+        v
+    };
+    let mut got: Vec<String> = glob
+        .walk_with_behavior(PathBuf::from(&base), DepthBehavior::bounded(None, max + 2).unwrap())
+        .filter_map(|e| e.ok())
+        .map(|e| e.path().to_string_lossy().to_string())
+        .collect();
+    got.sort();
+    let (lo, hi) = (walk_ref(max), walk_ref(max + 2));
+    let missing: Vec<&String> = lo.iter().filter(|p| !got.contains(p)).collect();
+    let extra: Vec<&String> = got.iter().filter(|p| !hi.contains(p)).collect();
+    if missing.is_empty() && extra.is_empty() {
+        format!("same {} {} {}", lo.len(), got.len(), hi.len())
+    }
+    else {
+        format!(
+            "DIFF got={} lo={} hi={} missing={} extra={}",
+            got.len(),
+            lo.len(),
+            hi.len(),
+            missing.first().map(|p| hex(p)).unwrap_or_else(|| "-".into()),
+            extra.first().map(|p| hex(p)).unwrap_or_else(|| "-".into())
+        )
     }
 }
 
